@@ -821,14 +821,10 @@ fn assemble(lines: &[Line], layout: Layout, pad: usize, main_name: &str, cut: Op
             let file = if no_location {
                 None
             } else if in_inc {
-                if p.outer_ctx {
-                    // CANDIDATE-FINDING C06-F1: a diagnostic for a token in an included file that is raised in the context of a
-                    // block which begins in the including file carries the including file's name together with the line
-                    // number of the included file. The file name is not checked in exactly this situation.
-                    None
-                } else {
-                    Some("inc.a2l".to_string())
-                }
+                // (C06-F1, repaired in /repo by "fix: diagnostics for tokens of an included file named the including file":
+                // also a diagnostic raised in the context of a block that begins in the including file names the file of the token)
+                let _ = p.outer_ctx;
+                Some("inc.a2l".to_string())
             } else {
                 Some(main_name.to_string())
             };
